@@ -440,6 +440,47 @@ pub fn c02_h3(rep: &Reporter, args: &Args) {
             else { rep.tally("l2 h3: position-coded stream echoed byte-exactly through an HTTP/3 tunnel", 1); rep.tally("l2 h3 bytes relayed and verified", 2 * len as u64); }
             c.close().await;
         }
+        // packet loss: everything the endpoint sends during a 400 ms window near the end of the download is lost (tail loss:
+        // the client has nothing in flight and stays silent, so only the endpoint's own loss-detection timer can repair it)
+        for round in 0..args.qt(4u64, 16u64) {
+            let Some(mut c) = h3_connect(rep, ep.addr, "main.test").await else { continue };
+            let len = if round % 2 == 1 { 600_000usize } else { 200_000 };
+            let key = common::fnv(format!("c02h3-loss-{}-{}", args.seed, round).as_bytes());
+            let data = crate::common::prng::coded_stream(key, 0, 0, len);
+            let Ok((id, st)) = c.roundtrip("CONNECT", None, &open.to_string(), None, &[], false, false, T).await else { rep.inconclusive("h3: request failed"); continue };
+            rep.evals(1);
+            rep.distinct(common::fnv(format!("c02h3|loss|{}", round).as_bytes()));
+            if st.status() != Some(200) { rep.inconclusive("h3: CONNECT to the echo peer not accepted"); continue; }
+            let mut sent = 0usize;
+            let mut failed = None;
+            // odd rounds: the loss window opens in the middle of the transfer (data and acknowledgements in flight both ways);
+            // even rounds: near the end of the echo (tail loss)
+            let mid = round % 2 == 1;
+            let mut t0 = std::time::Instant::now();
+            while sent < len {
+                let n = 16_384.min(len - sent);
+                if let Err(e) = c.send_body(id, &data[sent..sent + n], false, Duration::from_secs(30)).await { failed = Some(e); break; }
+                sent += n;
+                if mid && c.drop_incoming_until.is_none() && sent >= len / 2 { c.drop_incoming_until = Some(std::time::Instant::now() + Duration::from_millis(400)); t0 = std::time::Instant::now(); }
+            }
+            let mark = if mid { len / 2 } else { len - 30_000 - (round as usize % 4) * 20_000 };
+            if !mid {
+                // the echo is on its way: let most of it arrive, then lose what the endpoint sends for 400 ms
+                c.run_until(Duration::from_secs(20), |c| c.streams.get(&id).map(|s| s.body_len as usize >= mark).unwrap_or(false)).await;
+                c.drop_incoming_until = Some(std::time::Instant::now() + Duration::from_millis(400));
+                t0 = std::time::Instant::now();
+            }
+            c.run_until(Duration::from_secs(25), |c| c.streams.get(&id).map(|s| s.body_len as usize >= len || s.reset.is_some()).unwrap_or(false)).await;
+            let got = c.stream(id);
+            let first_diff = got.body.iter().zip(data.iter()).position(|(a, b)| a != b);
+            let w = json!({"kind":"h3-tunnel-transfer","bytes":len,"uploaded":sent,"echoed_back":got.body.len(),"first_difference":first_diff,"send_error":failed,"stream":got.summary(),
+                "loss_window_ms":400,"loss_started_at_byte":mark,"datagrams_lost":c.dropped_datagrams,"waited_ms_after_the_loss_began":t0.elapsed().as_millis() as u64,"connection":c.closed});
+            if c.dropped_datagrams == 0 { rep.tally("l2 h3 loss: nothing was in flight during the loss window (not judged)", 1); }
+            else if first_diff.is_some() || got.body.len() > len { rep.violation("l2 h3: bytes relayed through an HTTP/3 tunnel differ from the bytes sent", w); }
+            else if got.body.len() < len { rep.violation("l2 h3: HTTP/3 tunnel stalled after packet loss (lost packets not retransmitted within 25 s)", w); }
+            else { rep.tally("l2 h3 loss: download completed after a 400 ms loss window (lost packets retransmitted)", 1); }
+            c.close().await;
+        }
         ep.task.abort();
     });
 }
